@@ -22,6 +22,7 @@ UNITS = {
     "merkle_tree": {"template": "contracts/merkle_tree.vrs", "rlimit": 60},
     "curry": {"template": "contracts/curry.vrs", "rlimit": 60},
     "perm": {"template": "contracts/perm.vrs", "rlimit": 200},
+    "bls_gt": {"template": "contracts/bls_gt.vrs", "rlimit": 60},
     "mempool_visitor": {"template": "contracts/mempool_visitor.vrs", "rlimit": 60},
     "generator_len": {"template": "contracts/generator_len.vrs", "rlimit": 30},
     "aggsig": {"template": "contracts/aggsig.vrs", "rlimit": 60},
@@ -214,9 +215,9 @@ PROPS["C12"] = {
 PROPS["C15"] = {
     "level": "proof",
     "technique": "Verus contracts on the real BlsCacheData::put, on the per-pair closure of BlsCache::aggregate_verify (extracted verbatim as a function), on aggregate_verify's verdict combination, update and evict, over an assumed LinkedHashMap model: capacity invariant, cache-soundness invariant and cache-independence of the verdict; native evaluation of ground verdict-agreement obligations (cache vs plain, infinity key) on the real crates",
-    "level_text": "Deductive proof, for every prior cache content (inductive invariants, hence every history of calls): put/update/evict/aggregate_verify keep the number of entries <= capacity; every cached pairing is the pairing of the (pk, msg) it is keyed by (soundness invariant); the value the per-pair closure hands to aggregate_verify_gt equals e(H(pk||msg), pk) whether it came from the cache or not, and an infinity key is recorded on hits and misses alike; hence BlsCache::aggregate_verify's verdict is agv_gt(sig, pairings(pk,msg list)) && no key is infinity - a function of its arguments alone, independent of cache contents, capacity and evictions. That this equals the plain aggregate_verify verdict is pairing algebra inside blst: only ground instances are decided, by evaluating the real code on fixed pair lists with cold and warm caches.",
+    "level_text": "Deductive proof, for every prior cache content (inductive invariants, hence every history of calls): put/update/evict/aggregate_verify keep the number of entries <= capacity; every cached pairing is the pairing of the (pk, msg) it is keyed by (soundness invariant); the value the per-pair closure hands to aggregate_verify_gt equals e(H(pk||msg), pk) whether it came from the cache or not, and an infinity key is recorded on hits and misses alike; hence BlsCache::aggregate_verify's verdict is agv_gt(sig, pairings(pk,msg list)) && no key is infinity - a function of its arguments alone, independent of cache contents, capacity and evictions. aggregate_verify_gt itself (unit bls_gt) is proved to be: valid signature and (no pairings: the identity signature; otherwise product of the pairings == e(sig, g1)), over uninterpreted group operations. That this equals the plain aggregate_verify verdict is pairing algebra inside blst: only ground instances are decided, by evaluating the real code on fixed pair lists with cold and warm caches.",
     "level_note": "Mutex<BlsCacheData> is read as BlsCacheData and &self as &mut self (counted rewrites): the lock is dropped, i.e. the single-threaded view. Schedules (interleavings of concurrent verifications) are NOT covered: Kani has no threads and Verus would need the code rewritten onto its own lock types. The generic (Pk: Borrow<PublicKey>, Msg: AsRef<[u8]>, impl IntoIterator) signature is monomorphised to &Vec<(&PublicKey, &[u8])>; iterator.map(closure) consumed by aggregate_verify_gt is modelled by an eager loop calling the extracted closure (verdict-equivalent: aggregate_verify_gt stops early only when it answers false). Assumed: SHA-256 collision-free, compressed public-key encoding injective, aggregate_verify_gt a function of (sig, pairings), LinkedHashMap/NonZeroUsize contracts (read from linked-hash-map 0.5.6).",
-    "components": [V("bls_cache"), N("native_bls_cache_ground", "bls_cache_ground")],
+    "components": [V("bls_cache"), N("native_bls_cache_ground", "bls_cache_ground"), V("bls_gt")],
     "assumptions": ["linked_hash_map::LinkedHashMap insertion-ordered map model (shims/lhm.rs)", "blst pairing algebra (foreign code): hash_to_g2, pair, aggregate_verify_gt are uninterpreted functions of their arguments",
                     "SHA-256 treated as collision-free; PublicKey::to_bytes injective with 48 bytes", "single-threaded view of the Mutex (lock dropped by rewrite)"],
     "not_covered": [
